@@ -518,15 +518,19 @@ def debug_noninterference_obligations(rep):
                 if not (len(body) == 1 and isinstance(body[0], ast.If) and not body[0].orelse):
                     probs.append('_debug is not a single guarded statement')
                 else:
+                    loopvars = set()
+                    for n in ast.walk(body[0]):
+                        if isinstance(n, ast.For):
+                            it = ast.unparse(n.iter)
+                            if not ('.splitlines()' in it and isinstance(n.target, ast.Name)):
+                                probs.append('line %d: the message is not split into lines' % n.lineno)
+                            elif isinstance(n.target, ast.Name):
+                                loopvars.add(n.target.id)
                     for n in ast.walk(body[0]):
                         if isinstance(n, ast.Call) and isinstance(n.func, ast.Attribute) and n.func.attr == 'write':
                             arg = ast.unparse(n.args[0]) if n.args else ''
-                            if not re.fullmatch(r"'# ' \+ line \+ '\\n'", arg):
+                            if not any(arg == "'# ' + %s + '\\n'" % lv for lv in loopvars):
                                 probs.append('line %d: writes %s' % (n.lineno, arg))
-                        if isinstance(n, ast.For):
-                            it = ast.unparse(n.iter)
-                            if not ('.splitlines()' in it and isinstance(n.target, ast.Name) and n.target.id == 'line'):
-                                probs.append('line %d: the message is not split into lines' % n.lineno)
                         if isinstance(n, (ast.Assign, ast.AugAssign)) and any(isinstance(t, ast.Attribute) for t in
                                                                               (n.targets if isinstance(n, ast.Assign) else [n.target])):
                             probs.append('line %d: _debug changes object state' % n.lineno)
@@ -558,10 +562,18 @@ def debug_noninterference_obligations(rep):
                 and isinstance(g.iter, ast.Call) and isinstance(g.iter.func, ast.Attribute) and g.iter.func.attr == 'splitlines'
         return False
 
+    def builds_text(e):
+        return isinstance(e, (ast.JoinedStr, ast.BinOp)) or (isinstance(e, ast.Constant) and isinstance(e.value, str)) \
+            or (isinstance(e, ast.Call) and isinstance(e.func, ast.Attribute) and e.func.attr in ('join', 'format'))
+    nhdr = 0
     for n in core.walk_own(fn) if fn else []:
-        if isinstance(n, ast.Assign) and isinstance(n.targets[0], ast.Name) and n.targets[0].id == 's':
+        # every piece of text generate() itself builds (the header between the banner and the program) is comment text
+        if isinstance(n, ast.Assign) and isinstance(n.targets[0], ast.Name) and builds_text(n.value):
+            nhdr += 1
             if not comment_text(n.value):
                 probs.append('line %d: header %s' % (n.lineno, ast.unparse(n.value)[:60]))
+    if nhdr == 0:
+        probs.append('no header text found in generate()')
     rep.add_checked('yp_generator.YPPythonCodeGenerator.generate.debug.header_is_comment_text', not probs, '; '.join(probs), 'ast',
                     function='yp_generator.YPPythonCodeGenerator.generate', witness=probs or None)
     # __str__ methods and the tracing wrapper are effect-free
